@@ -99,6 +99,53 @@ def to_impl(e, symmap=None):
     return seq(e)
 
 
+def to_impl_shared(e):
+    """like to_impl, but structurally equal sub-trees are ONE Python object (the same operator instance used at several
+    positions of a pattern, as in `rep = OneOrMore("a"); [rep, "b", rep]`)"""
+    from codelimit.common.gsm.operator.OneOrMore import OneOrMore
+    from codelimit.common.gsm.operator.Optional import Optional
+    from codelimit.common.gsm.operator.Union import Union
+    from codelimit.common.gsm.operator.ZeroOrMore import ZeroOrMore
+    memo = {}
+
+    def op(o):
+        if o in memo:
+            return memo[o]
+        t = o[0]
+        if t == "A":
+            r = o[1]
+        elif t == "U":
+            r = Union(seq(o[1]), seq(o[2]))
+        else:
+            r = {"O": Optional, "S": ZeroOrMore, "P": OneOrMore}[t](seq(o[1]))
+        memo[o] = r
+        return r
+
+    def seq(s):
+        return [op(o) for o in s]
+    return seq(e)
+
+
+def impl_nfa_shape(e):
+    """the implementation's NFA for e in the canonical encoding of Gsm/NfaShape.v: states reachable from the start state,
+    numbered depth-first in order of first visit (epsilon edges, then labelled transitions, each in list order)"""
+    from codelimit.common.gsm.Expression import expression_to_nfa
+    nfa = expression_to_nfa(to_impl(e))
+    seen, order = {}, []
+
+    def visit(st):
+        if id(st) in seen:
+            return
+        seen[id(st)] = len(order)
+        order.append(st)
+        for nxt in list(st.epsilon_transitions) + [t[1] for t in st.transition]:
+            visit(nxt)
+    visit(nfa.start)
+    ix = lambda st: seen.get(id(st), -1)
+    return [0, ix(nfa.accepting),
+            [[[ix(x) for x in st.epsilon_transitions], [[getattr(p, "item", -999), ix(t)] for p, t in st.transition]] for st in order]]
+
+
 def to_coq(e):
     def op(o):
         t = o[0]
